@@ -66,8 +66,12 @@ class _TimeShim:
 class WritePlan:
     """A write-fault plan for one save: cut after ``budget`` bytes."""
 
-    def __init__(self, kind: str, budget: int, err: int = errno.ENOSPC, lost: int = 0) -> None:
+    def __init__(self, kind: str, budget: int, err: int = errno.ENOSPC, lost: int = 0, transient: bool = False) -> None:
         self.kind = kind  # "write_error" | "crash"
+        # transient write error: the one write that crosses the budget fails, the handle stays usable (disk space
+        # came back, EINTR-like) - so whatever still holds the handle can write to the same inode LATER, e.g. a
+        # finaliser emitting its central directory after a retry has already rewritten the file
+        self.transient = transient
         self.budget = budget
         self.err = err
         self.lost = lost
@@ -328,6 +332,16 @@ class World:
         zipfile.time = _TimeShim(self)
         _uuid.uuid1 = self._uuid1
         _uuid.uuid4 = self._uuid4
+        # temporary-file names (tempfile.mkdtemp / mkstemp) come from a seeded sequence too: the library does not
+        # use them today, a changed one might, and a name decides where an entry sorts in a directory listing
+        import random as _random
+        import tempfile as _tempfile
+
+        self._tempfile_saved = _tempfile._name_sequence
+        seq = _tempfile._RandomNameSequence()
+        seq._rng = _random.Random(self.seed ^ 0x7E3F)
+        seq._rng_pid = os.getpid()
+        _tempfile._name_sequence = seq
         import numbers_parser.numbers_uuid as nu
 
         nu.uuid1 = self._uuid1
@@ -355,6 +369,10 @@ class World:
         zipfile.time = _REAL_ZIP_TIME
         _uuid.uuid1 = _REAL_UUID1
         _uuid.uuid4 = _REAL_UUID4
+        if hasattr(self, "_tempfile_saved"):
+            import tempfile as _tempfile
+
+            _tempfile._name_sequence = self._tempfile_saved
         import numbers_parser.numbers_uuid as nu
 
         nu.uuid1 = _REAL_UUID1
@@ -384,7 +402,10 @@ class World:
                     of._kill(plan.lost if of is f else 0)
             raise SimCrash(f"crash after {plan.written} bytes in {plan.fired_in}")
         self.stats["write_error_fired"] += 1
-        f._kill(0)
+        if plan.transient:
+            self.stats["write_error_transient"] = self.stats.get("write_error_transient", 0) + 1
+        else:
+            f._kill(0)
         raise OSError(plan.err, os.strerror(plan.err), f._path)
 
     def begin_save(self, plan: WritePlan | None) -> None:
